@@ -1688,6 +1688,34 @@ fn generate(s: &mut Session) {
         s.count("history:small-infinity-bound");
         submit_history(s, &p, &ops);
     }
+    // P given with a stored pattern whose VALUES are all zero (an LP until the first update_P):
+    // anything decided once at construction from the values of P must follow the update (seed C08-g)
+    for _ in 0..s.budget(60, 1200) {
+        let mut rng = s.rng.fork();
+        let (mut p, sh) = gen_problem(&mut rng);
+        if p.P.nzval.is_empty() {
+            continue;
+        }
+        let vals = p.P.nzval.clone();
+        p.P.nzval.iter_mut().for_each(|v| *v = 0.0);
+        let probe = build(&p);
+        let (patP, patA) = (probe.data.P.clone(), probe.data.A.clone());
+        let mut ops: Vec<Op> = vec![];
+        if rng.bool(0.5) {
+            ops.push(Op::Solve);
+        }
+        ops.push(match rng.below(3) {
+            0 => Op::P(MArg::Slice(vals.clone())),
+            1 => Op::P(MArg::Matrix(CscMatrix { m: p.P.m, n: p.P.n, colptr: p.P.colptr.clone(), rowval: p.P.rowval.clone(), nzval: vals.clone() })),
+            _ => Op::P(MArg::Pairs((0..vals.len()).collect(), vals.clone())),
+        });
+        for _ in 0..rng.below(2) {
+            ops.push(gen_op(&mut rng, &p, &sh, &patP, &patA, 0.0));
+        }
+        ops.push(Op::Solve);
+        s.count("history:zero-valued-P-then-update_P");
+        submit_history(s, &p, &ops);
+    }
     // `update_data` with MIXED argument forms; the first rejecting component is chosen
     // (P, q, A, b, none, or two at once), so that the prefix effect of a rejected call — the
     // components before the rejected one HAVE been applied — is compared with the model
